@@ -48,7 +48,7 @@ def run(ctx):
     for b, inv in negs:
         ctx.cov["tlc_runs"].append({"run": "negative:" + b, "outcome": "fails as required (%s)" % inv})
     sessions = c40.run_sessions(ctx, "c42", n_max=ctx.q(24, 400), n_min=ctx.q(10, 60), ncmds=ctx.q(12, 20),
-                                budget_s=ctx.q(55, 600), par=ctx.q(8, 12))
+                                budget_s=ctx.q(55, 420), par=ctx.q(8, 12))
     trace = ctx.path("c42.ndjson")
     with open(trace, "w") as f:
         for s in sessions:
